@@ -1745,6 +1745,14 @@ class Analyzer(Analysis):
             if same and k not in must_phi and k not in sticky:
                 store[k] = vs[0]
                 continue
+            if all(v is not None and v[0] == "adt" for v in vs) and len(set((v[1], v[2]) for v in vs)) == 1:
+                # the same variant of the same enum on every edge (e.g. different Err(..) values): the variant is known
+                if len(set(len(v[3]) for v in vs)) == 1:
+                    flds = tuple(vs[0][3][i] if all(v[3][i] == vs[0][3][i] for v in vs) else None for i in range(len(vs[0][3])))
+                    store[k] = ("adt", vs[0][1], vs[0][2], flds, vs[0][4])
+                else:
+                    store[k] = ("adt", vs[0][1], vs[0][2], (), ())
+                continue
             if all(v is not None and v[0] == "bytes" for v in vs) and len(set((v[2], v[3]) for v in vs)) == 1:
                 # both arms of a branch produced the bytes of an integer of the same width / order
                 store[k] = ("bytes", None, vs[0][2], vs[0][3], vs[0][4] if len(set(map(str, (v[4] for v in vs)))) == 1 else None)
